@@ -102,8 +102,94 @@ fn drain(conn: &mut HttpConnection<ScriptStream>, stream: &ScriptStream, out: &m
     true
 }
 
+/// The same script format executed over a REAL socket pair (SCM_RIGHTS through the kernel and
+/// vmm-sys-util's recvmsg wrapper).  Each data read is one sendmsg of a small chunk (it fits the
+/// window, so one receive takes it whole) followed by one try_read; descriptors travel as
+/// ancillary data of that message.  Only reads are supported (used by C12).
+pub fn run_script_real(script: &Value, tags: &TagFiles, out: &mut dyn Write) -> bool {
+    use std::os::unix::net::UnixStream;
+    use vmm_sys_util::sock_ctrl_msg::ScmSocket;
+    let limit = obs::from_digits(&script["limit"]) as usize;
+    let fd_base = open_fd_count();
+    let (client, server) = UnixStream::pair().unwrap();
+    server.set_nonblocking(true).unwrap();
+    let mut conn = HttpConnection::new(server);
+    conn.set_payload_max_size(limit);
+    let keep = script["keep"].as_bool().unwrap_or(false);
+    let mut held: Vec<micro_http::Request> = Vec::new();
+    let mut client = Some(client);
+    writeln!(out, "{}", json!({"e": "new", "run": script["run"], "fam": script["fam"], "cmp": script["cmp"],
+                               "limit": script["limit"], "buf": crate::BUF, "note": script["note"]})).unwrap();
+    let empty = vec![];
+    let mut ok = true;
+    for ev in script["ev"].as_array().unwrap_or(&empty) {
+        if ev["e"] != "read" {
+            continue;
+        }
+        let rk = ev["kind"].as_str().unwrap_or("data");
+        let fds: Vec<RawFd> = ev["fds"].as_array().map(|a| a.iter().map(|t| tags.open(t.as_i64().unwrap())).collect()).unwrap_or_default();
+        let bytes = obs::from_bytes(&ev["bytes"]);
+        let mut sent_fds = ev["fds"].clone();
+        match rk {
+            "data" => {
+                if let Some(c) = client.as_ref() {
+                    let r = if fds.is_empty() { c.send_with_fds(&[&bytes[..]], &[]) } else { c.send_with_fds(&[&bytes[..]], &fds) };
+                    if r.is_err() {
+                        sent_fds = json!([]);
+                    }
+                }
+            }
+            "eof" => {
+                // descriptors cannot travel with an end-of-stream on a stream socket: just close
+                client = None;
+                sent_fds = json!([]);
+            }
+            _ => {}
+        }
+        // our copies of the descriptors are closed: the receiver owns its own duplicates
+        for fd in fds {
+            // SAFETY: descriptors opened by TagFiles::open and owned here.
+            unsafe { libc::close(fd) };
+        }
+        let r = catch_unwind(AssertUnwindSafe(|| conn.try_read()));
+        let (res, panicked) = match &r {
+            Ok(r) => (obs::conn_result(r), false),
+            Err(_) => (obs::panic_result(), true),
+        };
+        let mut popped = vec![];
+        if !panicked {
+            while let Some(rq) = conn.pop_parsed_request() {
+                popped.push(obs::request(&rq));
+                if keep {
+                    held.push(rq);
+                }
+            }
+        }
+        let lk = if rk == "data" { "data" } else if rk == "eof" { "eof" } else { "err" };
+        writeln!(out, "{}", json!({"e": "read", "kind": lk, "bytes": if rk == "data" { ev["bytes"].clone() } else { json!([]) },
+                                   "fds": if sent_fds.is_array() { sent_fds } else { json!([]) },
+                                   "res": res, "recvs": 1, "writes": 0, "window": crate::BUF, "popped": popped,
+                                   "pending": if panicked { json!(false) } else { json!(conn.pending_write()) },
+                                   "digest": {"none": true}})).unwrap();
+        if panicked {
+            ok = false;
+            break;
+        }
+    }
+    drop(held);
+    drop(conn);
+    drop(client);
+    let fd_after = open_fd_count();
+    writeln!(out, "{}", json!({"e": "end", "run": script["run"], "fam": script["fam"], "aborted": !ok, "stopped": false,
+                               "unscripted": 0, "fd_delta": fd_after as i64 - fd_base as i64})).unwrap();
+    ok
+}
+
 /// Runs one script; writes trace events to `out`.  Returns false if the run panicked.
 pub fn run_script(script: &Value, tags: &TagFiles, out: &mut dyn Write) -> bool {
+    if script["real_socket"].as_bool().unwrap_or(false) {
+        return run_script_real(script, tags, out);
+    }
     let stream = ScriptStream::new();
     let limit = obs::from_digits(&script["limit"]) as usize;
     let fd_base = open_fd_count();
